@@ -54,7 +54,7 @@ def gen_cases(rng, tier):
     model = spec.gen_pair_model(rng, groute, target=rng.choice(["DL_POLY", "DLPOLY"]), nr_choices=[nr], maxlabel=8,
                                 depth=1 if reject else 2, rmax_scale=lambda n: n / max(1.0, n - 4.0))
     if route.startswith("api") and not reject:
-      model["api_variant"] = rng.choice([None, None, "tuple", "int_cutoff", "kwargs", "realfile"])
+      model["api_variant"] = rng.choice([None, None, "tuple", "int_cutoff", "kwargs", "realfile", "amend_after_write"])
       if model["api_variant"] == "int_cutoff":
         model["tab"]["cutoff"] = float(rng.randint(1, 20))
     cases.append({"route": route, "model": model, "style": rng.randrange(1 << 30), "reject": reject})
@@ -81,6 +81,17 @@ def gen_cases(rng, tier):
     route = ["api_class", "api_legacy", "potable", "cli"][(i + i // 8) % 4]
     model = {"type": "pair", "target": "DL_POLY", "tab": {"nr": nr, "cutoff": cutoff}, "forms": [], "tables": [], "pair": [["Ar", "Ar", node]]}
     cases.append({"route": route, "model": model, "style": rng.randrange(1 << 30), "reject": False, "root_on_grid": k, "root_variant": rv})
+  # a discontinuity exactly ON a row of a grid that is exact in doubles (first row, interior, the row at the cutoff), also
+  # with one callable shared by two potentials: the energy pass and the force pass both revisit row 1 - judged strictly
+  for i in range(28 if tier == "quick" else 196):
+    v = spec.EXACT_BOUNDARY_VARIANTS[i % len(spec.EXACT_BOUNDARY_VARIANTS)]
+    route = ["potable", "cli", "api_legacy", "api_class"][(i + i // 7) % 4]
+    model, k = spec.exact_boundary_model(rng, rng.choice(["DL_POLY", "DLPOLY"]), v, dlpoly=True, shared=route.startswith("api"))
+    cases.append({"route": route, "model": model, "style": rng.randrange(1 << 30), "reject": False, "exact_boundary": v, "root_on_grid": k})
+  # row-count sweep (everything small, m*10^k, 2^k, multiples of 5000, each with neighbours): structure and end values
+  szs = spec.edge_sizes(tier, multiple_of=4, lo=8)
+  for c0 in range(0, len(szs), 12):
+    cases.append({"kind": "sizes", "sizes": szs[c0:c0 + 12], "route": "api_legacy", "model": None, "style": 0})
   return cases
 
 
@@ -127,6 +138,15 @@ def run_reject(case, ctx, model, route, rng):
 
 
 def run_case(case, ctx):
+  if case.get("kind") == "sizes":
+    import sizesweep
+    ctx.cls("kind:row_count_sweep")
+    for n_ in case["sizes"]:
+      ctx.cls(sizesweep.size_class(n_))
+      if not (sizesweep.check_dlpoly(ctx, n_)):
+        return
+    ctx.nontrivial(True)
+    return
   model = case["model"]
   route = case["route"]
   groute = "api" if route.startswith("api") else "potable"
@@ -146,6 +166,8 @@ def run_case(case, ctx):
       ctx.cls("kind:" + k)
   delpot = oracle.grid(cutoff, nr - 4)
   rows = oracle.sample_rows(nr, rng, 24)
+  if case.get("exact_boundary"):
+    ctx.cls("exact_boundary_on_row:" + case["exact_boundary"])
   if case.get("root_on_grid"):
     rows = sorted(set(rows + [case["root_on_grid"] - 1]))
     ctx.cls("root_on_grid")
@@ -181,6 +203,8 @@ def run_case(case, ctx):
       with monitors.PotentialTrace(log):
         if route == "api_class":
           tab = routes.pair_tab_api(model, target="DLPOLY")
+          if model.get("api_variant") == "amend_after_write":
+            del log.events[:]     # the first (incomplete) write is not the one under observation
           pots = tab.potentials
           text = routes.write_to_real_file(tab.write) if model.get("api_variant") == "realfile" else routes.write_tab(tab)
           ctx.cls("api_variant:%s" % model.get("api_variant"))
@@ -240,7 +264,7 @@ def run_case(case, ctx):
       where = "block %d (%s-%s) k=%d r=%s route=%s" % (idx, a, b, k, mp.nstr(r, 12), route)
       d_ref = o.deriv(r)
       drift = (k + 4) * mp.mpf("2.3e-16") * r
-      oracle.check_value(ctx, "energy", blk["energies"][i], o, r, where=where, abs_=abs(d_ref) * drift, fmt="dlpoly_table")
+      oracle.check_value(ctx, "energy", blk["energies"][i], o, r, where=where, abs_=abs(d_ref) * drift, fmt="dlpoly_table", strict=bool(case.get("exact_boundary")))
       if oracle.on_break(r, o.breaks, 1e-9) and o.analytic:
         # a grid point on a range boundary: energy and force must come from the SAME branch of V.
         # If the printed energy identifies one side, the force has to be the derivative of that side.
